@@ -309,7 +309,92 @@ func runC04(c *Ctx, r *Report) {
 		r.Check(ok, "C04.R2", ssaFuncName(fn), "callee cantCache propagates to the caller environment", c.Pos(fn.Pos()),
 			"a call to a non-cacheable extension inside a callee no longer marks the caller uncacheable")
 	}
-	r.Floor("C04.R2", 9)
+	// applyFunction: the propagation test is on every exit that the flag can reach. The only edge that
+	// excludes the flag is "miss counter unchanged" (TriggerNoCache bumps it whenever it sets the flag, checked
+	// above; the two writer obligations below make that an invariant of the callee environment).
+	{
+		fn := c.SSAFn(c.Fn("eval", "State.applyFunction"))
+		fname := ssaFuncName(fn)
+		getMisses := c.Fn("object", "Environment.GetMisses")
+		var flagRead *ssa.Call
+		for _, call := range callsIn(fn, cantCache) {
+			flagRead, _ = call.(*ssa.Call)
+		}
+		if flagRead == nil || len(callsIn(fn, cantCache)) != 1 {
+			r.Undecided("applyFunction: expected exactly one read of the callee's CantCache()")
+		} else {
+			isMisses := func(v ssa.Value) bool {
+				call, ok := v.(*ssa.Call)
+				return ok && isCallTo(call, getMisses)
+			}
+			// blocks entered only through the "counter unchanged" edge
+			unchanged := map[*ssa.BasicBlock]bool{}
+			for _, b := range fn.Blocks {
+				ifi, ok := b.Instrs[len(b.Instrs)-1].(*ssa.If)
+				if !ok {
+					continue
+				}
+				bin, ok := ifi.Cond.(*ssa.BinOp)
+				if !ok || !isMisses(bin.X) || !isMisses(bin.Y) || bin.X == bin.Y {
+					continue
+				}
+				var eq *ssa.BasicBlock
+				switch bin.Op {
+				case token.NEQ:
+					eq = b.Succs[1]
+				case token.EQL:
+					eq = b.Succs[0]
+				}
+				if eq != nil && len(eq.Preds) == 1 {
+					unchanged[eq] = true
+				}
+			}
+			sat := func(in ssa.Instruction) bool {
+				if unchanged[in.Block()] && in == in.Block().Instrs[0] {
+					return true
+				}
+				ifi, ok := in.(*ssa.If)
+				if !ok || ifi.Cond != ssa.Value(flagRead) {
+					return false
+				}
+				// the true edge calls TriggerNoCache before any return
+				tb := ifi.Block().Succs[0]
+				if len(tb.Preds) != 1 || len(tb.Instrs) == 0 {
+					return false
+				}
+				if isCallTo(tb.Instrs[0], trigger) {
+					return true
+				}
+				return mustPassBefore(tb.Instrs[0], func(x ssa.Instruction) bool { return isCallTo(x, trigger) }, isReturn) == nil
+			}
+			bad := mustPassBefore(flagRead, sat, isReturn)
+			desc := "every return after the body evaluation tests the callee's cantCache flag (or is on the miss-counter-unchanged edge)"
+			if bad != nil {
+				r.Fail("C04.R2", fname, desc, c.Pos(instrPos(bad.exit)),
+					"a return is reachable after the body evaluation without the cantCache test: a callee that called a non-cacheable extension (and e.g. returned an error) leaves its caller cacheable", c.tracePath(bad)...)
+			} else {
+				r.Ok("C04.R2", fname, desc, c.Pos(flagRead.Pos()))
+			}
+		}
+		// writers of the two fields
+		for _, f := range c.ModuleSSAFuncs() {
+			eachInstr(f, func(in ssa.Instruction) {
+				st, ok := in.(*ssa.Store)
+				if !ok {
+					return
+				}
+				if isFieldAddrOf(st.Addr, envT, "cantCache") {
+					r.Check(f == c.SSAFn(trigger), "C04.R2", ssaFuncName(f), "cantCache is written only by TriggerNoCache", c.Pos(st.Pos()),
+						"the flag is set outside TriggerNoCache: it can be true while the miss counter is unchanged, and applyFunction tests it only when the counter changed")
+				}
+				if isFieldAddrOf(st.Addr, envT, "getMiss") {
+					r.Check(isMissIncr(in), "C04.R2", ssaFuncName(f), "getMiss only ever increases", c.Pos(st.Pos()),
+						"the miss counter is written with something other than an increment: 'after != before' no longer means 'nothing uncacheable happened'")
+				}
+			})
+		}
+	}
+	r.Floor("C04.R2", 14)
 
 	// ---- R3 ----
 	c.checkExtensionPurity(r)
